@@ -403,7 +403,9 @@ def rewindInner (mlen : Option Nat) (ev s : List Nat) (rsizes : List Nat) (nonce
     let prep := setBlock prep (base + rsLast - 1 - j) tmp
     let skip1 := rsLast - 1 - j
     let skip2 := (value >>> ((rings - 1) <<< 1)) &&& 3
-    if skip1 = skip2 then ⟨false, 0, value, zeroLen⟩ else
+    -- finding F3 (fixed in /repo): a last digit ≥ the size of the last ring used to index scalars that
+    -- were never written (an uninitialised read in C); it is rejected like a misplaced value
+    if skip1 = skip2 ∨ skip2 ≥ rsLast then ⟨false, 0, value, zeroLen⟩ else
     let skip1 := skip1 + base
     let skip2 := skip2 + base
     let stmp := recoverX (sOrig.getD skip2 0) (ev.getD skip2 0) (s.getD skip2 0)
